@@ -204,7 +204,9 @@ CLAIMED = {
               "text-free documents the four passes compose into ONE local pass (cleanup_single_pass) and the whole clean-up is "
               "blind to any mix of the noise kinds at once (cleanup_blind_mixed); with text nodes lxml's tail-text rule makes "
               "sequential and combined removal differ in a corner, so that case and the wrapper-group case stay with the "
-              "metamorphic check."),
+              "metamorphic check. remove_anonymous_symbols keeps the gradients of an id-less symbol (a repaired defect); "
+              "remove_anonymous_symbols_is_the_pass proves that on every document in which no id-less symbol has a gradient below "
+              "it the code's operation is exactly the per-element pass these theorems are about."),
         note=("Trusted: Lean kernel; propext only; lxml parser options (remove_comments, remove_blank_text); harness "
               "canonicalisation (unused xmlns declarations left on inner elements are ignored, see DESIGN §6)."),
         technique="Lean 4 proof (mutual structural induction on an inductive noise-insertion relation) + cleanup-pass correspondence + metamorphic conversion search",
